@@ -511,6 +511,31 @@ def credential_order() -> dict:
     return {"add_credential": add, "substantiate": sub}
 
 
+def batching_callers() -> list[str]:
+    """every place under ipv8/attestation (tests excluded) that opens a `with <…database>:` batch around store calls or
+    calls __enter__ on a database: inside such a block insert_* returns before anything is committed"""
+    out = []
+    root = REPO / "ipv8" / "attestation"
+    for path in sorted(root.rglob("*.py")):
+        rel = str(path.relative_to(REPO))
+        if "/test" in rel:
+            continue
+        try:
+            tree = ast.parse(path.read_text())
+        except SyntaxError as e:
+            raise TranslatorError(f"{rel}: {e}") from e
+        for n in ast.walk(tree):
+            if isinstance(n, (ast.With, ast.AsyncWith)):
+                for it in n.items:
+                    expr = ast.unparse(it.context_expr)
+                    if re.search(r"(^|\.)(database|_database|db|identity_db|attestation_db)$", expr):
+                        out.append(f"{rel}:{n.lineno} with {expr}")
+            if isinstance(n, ast.Call) and isinstance(n.func, ast.Attribute) and n.func.attr == "__enter__" \
+                    and re.search(r"(database|db)$", ast.unparse(n.func.value)):
+                out.append(f"{rel}:{n.lineno} {ast.unparse(n.func)}")
+    return out
+
+
 def lean_prim(p) -> str:
     if p[0] == "exec":
         return f".exec {p[1]} .{p[2]}"
@@ -667,6 +692,7 @@ def translate() -> tuple[str, dict]:
         lean_scripts.append((clsname, ls, [tr.tid(n) for n in tinfo], latest, ups))
     reload_lean, meta["reload"] = reload_mode()
     meta["credential_order"] = credential_order()
+    meta["batching_callers"] = batching_callers()
     meta["table_names"] = list(tr.tables)
     meta["column_names"] = list(tr.columns)
 
@@ -721,6 +747,11 @@ def translate() -> tuple[str, dict]:
             "    store the parts of a credential: 0 tokens, 1 metadata, 2 attestations -/",
             f"def credentialOrder : List Nat := {lean_list([str(t) for t in meta['credential_order']['add_credential']])}",
             f"def substantiateOrder : List Nat := {lean_list([str(t) for t in meta['credential_order']['substantiate']])}",
+            "",
+            "/-- line numbers of the places under ipv8/attestation that wrap store calls in a `with <database>:` batch:",
+            *["    " + x for x in meta["batching_callers"]],
+            "    (empty = none) -/",
+            f"def batchingCallers : List Nat := {lean_list([x.split(':')[1].split(' ')[0] for x in meta['batching_callers']])}",
             "",
             "/-- how PseudonymManager.__init__ puts the stored tokens back into the tree -/",
             f"def reloadMode : ReloadMode := {reload_lean}",
